@@ -14,7 +14,7 @@ REAL_DD = ["ddo::Mdd<LEL>::compile, Mdd<FRONTIER>::compile, Pooled::compile, dra
 STUB_DD = ["the solver loop (operations are issued by the harness)", "TimeBudget -> SimCutoff", "user model -> family T"]
 
 ALL_EXAMPLES = ["knapsack", "misp", "max2sat", "mcp", "lcs", "golomb", "sop", "tsptw", "srflp", "talentsched", "psp", "alp"]
-EXAMPLES_READY = ["knapsack", "misp", "max2sat", "mcp", "golomb"]
+EXAMPLES_READY = ["knapsack", "misp", "max2sat", "mcp", "golomb", "lcs", "sop", "srflp", "tsptw", "talentsched", "psp", "alp"]
 
 def A(arm, quick, thorough, **kw):
     d = {"arm": arm, "quick": quick, "thorough": thorough}
